@@ -129,8 +129,12 @@ def parseParamD (s : String) : Option (Ty × Core3.Ident) :=
 def parseFuncD (rt nm ps bs : String) : Option Func :=
   let params := if ps == "-" then some [] else (ps.splitOn "|").mapM parseParamD
   let blocks := if bs == "-" then some [] else (bs.splitOn "/").mapM parseBlockD
+  -- the name field may carry the header keywords: `<hexname>~<i>,<i>…` (positions in `kLead`, in the order written)
+  let (nmHex, lead) := match nm.splitOn "~" with
+    | [n, l] => (n, (l.splitOn ",").filterMap String.toNat?)
+    | _ => (nm, [])
   match tyArg rt, params, blocks with
-  | some rt, some ps, some bs => some ⟨rt, argHex nm, ps, bs⟩
+  | some rt, some ps, some bs => some ⟨rt, argHex nmHex, ps, bs, lead⟩
   | _, _, _ => none
 
 def splitLines (s : Bytes) : List Bytes :=
@@ -186,6 +190,10 @@ def textRisky (ls : List Bytes) : Bool :=
   -- a case of a switch whose value is a global (`i8* @g, label %b`: a constant to the real parser; the cases of the fragment are literal constants)
   ls.any (fun l => (TyParse.stripPrefix [9, 9] l).isSome && l.contains 64 && hasInfix sCommaLabel l)
 
+/-- the numeric calling convention `cc <n>` in a function header is outside the fragment (the printer turns the numbers that have a keyword into it) -/
+def headerRisky (ls : List Bytes) : Bool :=
+  ls.any fun l => ((TyParse.stripPrefix Core3.sDefine l).isSome || (TyParse.stripPrefix Core3.sDeclare l).isSome) && hasInfix [32, 99, 99, 32] l
+
 def core3Ops (op : String) (a : List String) : Option String :=
   match op, a with
   | "core3.print", [rt, nm, ps, bs] => (parseFuncD rt nm ps bs).map fun f => outHex (Core3.flatten (printFunc IntLit.hexChoice f))
@@ -194,7 +202,7 @@ def core3Ops (op : String) (a : List String) : Option String :=
       | some f' => outHex (Core3.flatten (printFunc IntLit.hexChoice f'))
       | none => "error"
   | "core3.parse", [x] =>
-      some (if textRisky (splitLines (argHex x)) then "skip" else match Core3.readFunc (splitLines (argHex x)) with
+      some (if textRisky (splitLines (argHex x)) || headerRisky (splitLines (argHex x)) then "skip" else match Core3.readFunc (splitLines (argHex x)) with
         | none => "error"
         | some f0 =>
           match Core3.translate f0 with
